@@ -44,7 +44,7 @@ THEOREMS += ["OdxVerif.Codec." + t for t in [
 # input-dependent size at any depth, MATCHING-REQUEST-PARAM, DYNAMIC-ENDMARKER-FIELD
 THEOREMS += ["OdxVerif.Codec." + t for t in [
     'C01_roundtrip_nested_consumes', 'C01_roundtrip_nested_whole', 'C01_roundtrip_nested2', 'C01_roundtrip_nested2_whole',
-    'C01_roundtrip_bytesize', 'C01_roundtrip_nested2_of_described', 'Described.to2', 'Described2.ok', 'DescribedTop.ok', 'mcomps_roundtrip_msg_cur', 'roundtrip_msg_core',
+    'C01_roundtrip_bytesize', 'C01_bytesize_too_long_rejected', 'C01_bytesize_accepted_fits', 'C01_roundtrip_nested2_of_described', 'Described.to2', 'Described2.ok', 'DescribedTop.ok', 'mcomps_roundtrip_msg_cur', 'roundtrip_msg_core',
     'dcomp_roundtrip_msg_cur', 'comps_roundtrip_msg_cur', 'comps_roundtrip_msg_pre_cur',
     'Good.sized', 'bsPad_frame', 'DComp.withByteSize_okM', 'DComp.withByteSize_ok', 'DComp.structBS_ok', 'DComp.structOM_okM',
     'DComp.structOM_ok',
@@ -396,7 +396,8 @@ def finding_corpus():
                 {"s": "a", "y": 0x77}, None,
                 "MIN-MAX-LENGTH A_UNICODE2STRING with an odd MAX-LENGTH: a value of MAX-LENGTH - 1 bytes is written with its two-byte terminator, "
                 "which straddles the decoder's search bound orig + MAX-LENGTH, so the decoder reads MAX-LENGTH bytes and fails (DecodeError)"))
-    # forced by the proof of DComp.withByteSize_ok (W11): the encoder never checks that the content fits into BYTE-SIZE
+    # forced by the proof of DComp.withByteSize_ok (W11): the encoder never checked that the content fits into BYTE-SIZE
+    # (fixed, W16: fixes/c01-byte-size-structure-content-too-long.patch - the witness is an EncodeError now)
     mmz = D.SimpleDop(D.MinMax("A_BYTEFIELD", 0, 8, "ZERO"), "A_BYTEFIELD")
     out.append(("byte-size-structure-content-too-long",
                 D.Composite("RQ", "request", [D.sid(), D.value("st", D.Struct([D.value("s", mmz)], bytesize=3)), D.value("y", D.u8())]),
